@@ -39,10 +39,13 @@ const (
 	KPoint   // struct with pointer-receiver UnmarshalFlag/MarshalFlag
 	KVocab   // string type that implements Completer
 	KPicky   // string type that implements ValueValidator
+	KOnOff   // bool-kinded type with UnmarshalFlag/MarshalFlag ("on"/"off"): takes an argument although its kind is bool
+	KRes     // string-kinded type whose UnmarshalFlag lower-cases and rejects texts containing '!' (also used as a map key)
+	KBag     // struct whose UnmarshalFlag appends to what it holds (an accumulating unmarshaler)
 	numTK
 )
 
-var tkNames = [...]string{"string", "bool", "int", "int8", "int16", "int32", "int64", "uint", "uint8", "uint16", "uint32", "uint64", "float32", "float64", "Duration", "Celsius", "Point", "Vocab", "Picky"}
+var tkNames = [...]string{"string", "bool", "int", "int8", "int16", "int32", "int64", "uint", "uint8", "uint16", "uint32", "uint64", "float32", "float64", "Duration", "Celsius", "Point", "Vocab", "Picky", "OnOff", "Res", "Bag"}
 
 func (k TK) String() string { return tkNames[k] }
 
@@ -146,6 +149,47 @@ func (p *Picky) IsValidValue(s string) error {
 	return nil
 }
 
+type OnOff bool
+
+func (o *OnOff) UnmarshalFlag(s string) error {
+	switch s {
+	case "on":
+		*o = true
+	case "off":
+		*o = false
+	default:
+		return errors.New("onoff: want on or off")
+	}
+	return nil
+}
+
+func (o OnOff) MarshalFlag() (string, error) {
+	if o {
+		return "on", nil
+	}
+	return "off", nil
+}
+
+type Res string
+
+func (x *Res) UnmarshalFlag(s string) error {
+	if strings.Contains(s, "!") {
+		return errors.New("res: names may not contain !")
+	}
+	*x = Res(strings.ToLower(s))
+	return nil
+}
+
+type Bag struct{ items []string }
+
+func (b *Bag) UnmarshalFlag(s string) error {
+	b.items = append(b.items, s)
+	return nil
+}
+
+// StrList is a named slice type (a rest positional of this type is still a list).
+type StrList []string
+
 var (
 	tString   = reflect.TypeOf("")
 	tBool     = reflect.TypeOf(false)
@@ -193,6 +237,12 @@ func scalarType(k TK) reflect.Type {
 		return reflect.TypeOf(Vocab(""))
 	case KPicky:
 		return reflect.TypeOf(Picky(""))
+	case KOnOff:
+		return reflect.TypeOf(OnOff(false))
+	case KRes:
+		return reflect.TypeOf(Res(""))
+	case KBag:
+		return reflect.TypeOf(Bag{})
 	}
 	panic("bad TK")
 }
